@@ -3,7 +3,8 @@
 (* info, Info.accepts, masks_compatible).  Fields take abstract values:     *)
 (*   time  "none" | "t"                                                     *)
 (*   grid  "none" | "g" | "g2" | "g3" | "g4" (same geometry, other layouts:  *)
-(*         axes order reversed / x stored decreasing / y stored decreasing) | "h" (other *)
+(*         axes order reversed / x stored decreasing / y stored decreasing) | "l" | "lr" (a *)
+(*         one-dimensional grid stored in increasing / decreasing order) | "h" (other       *)
 (*         geometry) | "gc" (the node coordinates of g in another           *)
 (*         coordinate reference system) | "nogrid"                          *)
 (*   units additionally "ms", "kms", "s2": products with seconds, as the    *)
@@ -19,13 +20,13 @@
 EXTENDS FinamBase, TLC
 
 Info(t, g, u, m, f) == [time |-> t, grid |-> g, units |-> u, mask |-> m, foo |-> f]
-GridOK(i) == (i.mask \in {"M", "N", "E"}) => i.grid \in {"g", "g2", "g3", "g4", "h", "gc"}     \* a fixed mask presupposes a structured grid
-PInfos == {i \in {Info(t, g, u, m, f) : t \in {"none", "t"}, g \in {"none", "g", "g2", "g3", "h", "gc", "nogrid"},
+GridOK(i) == (i.mask \in {"M", "N", "E"}) => i.grid \in {"g", "g2", "g3", "g4", "h", "gc", "l", "lr"}     \* a fixed mask presupposes a structured grid
+PInfos == {i \in {Info(t, g, u, m, f) : t \in {"none", "t"}, g \in {"none", "g", "g2", "g3", "h", "gc", "nogrid", "l"},
                     u \in {"none", "m", "km", "s"}, m \in {"flex", "nomask", "M", "N", "E", "E0"}, f \in {"absent", "none", "v"}} : GridOK(i)}
-CInfos == {i \in {Info(t, g, u, m, f) : t \in {"none", "t"}, g \in {"none", "g", "g2", "g4", "h", "gc", "nogrid"},
+CInfos == {i \in {Info(t, g, u, m, f) : t \in {"none", "t"}, g \in {"none", "g", "g2", "g4", "h", "gc", "nogrid", "lr"},
                     u \in {"none", "m", "km", "s"}, m \in {"flex", "nomask", "M", "N", "E", "E0"}, f \in {"absent", "none", "v", "w"}} : GridOK(i)}
 
-SameLocations(a, b) == a = b \/ {a, b} \subseteq {"g", "g2", "g3", "g4"}
+SameLocations(a, b) == a = b \/ {a, b} \subseteq {"g", "g2", "g3", "g4"} \/ {a, b} \subseteq {"l", "lr"}
 Dim(u) == CASE u = "s" -> "time" [] u \in {"ms", "kms"} -> "length*time" [] u = "s2" -> "time2" [] OTHER -> "length"
 TimesS(u) == CASE u = "m" -> "ms" [] u = "km" -> "kms" [] u = "s" -> "s2" [] OTHER -> u
 Specified(m) == m \in {"M", "N", "E", "E0"}
